@@ -19,7 +19,8 @@ def cases(rng, tier):
     n = 200 if tier == "quick" else 3000
     for _ in range(n):
         top, entries, lines = F.gen_contain(rng)
-        cs.append({"line": F.line(top, entries), "tags": ["contain"], "fs": [top, entries, lines], "src": "\n".join(lines)})
+        jentries = [[e[0], e[1], e[2].hex() if isinstance(e[2], bytes) else e[2]] for e in entries]
+        cs.append({"line": F.line(top, entries), "tags": ["contain"], "fs": [top, jentries, lines], "src": "\n".join(lines)})
     return cs
 
 
